@@ -67,4 +67,5 @@ Definition nfact (a:num) : option num :=   (* None = ValueError *)
   | NFlt q => let z := qtrunc q in if (z <? 0)%Z then None else Some (NInt (fact_nat (Z.to_nat z)))
   | NNonFinite => None end.
 (* SgnExpression.operate: ints -1 / 1 / 0 (nan compares false both ways -> 0) *)
+Definition nabs (a:num) : num := if nlt a (NInt 0) then nneg a else a.
 Definition nsgn (a:num) : num := if nlt a (NInt 0) then NInt (-1) else if nlt (NInt 0) a then NInt 1 else NInt 0.
